@@ -57,9 +57,16 @@ def run_obligations(scratch, obls, tier, jobs=None, timeout_s=None, mem_gb=None)
     """Build the scratch copy under Kani and run the given harnesses.  Returns (results, meta)."""
     for hf in sorted({o["file"] for o in obls}):
         scratch.inject(hf, INJECT[hf])
-    jobs = jobs or int(os.environ.get("VERIF_JOBS", "12" if tier == "quick" else "8"))
+    # a harness file may carry `// @limits jobs=N mem_gb=G`: the address-space limit is per process and kani-driver itself
+    # needs several GB per worker thread to parse CBMC's output for the page-sized objects of C10
+    lim = {}
+    for hf in sorted({o["file"] for o in obls}):
+        for ln in open(os.path.join(HARNESS_DIR, hf)):
+            if ln.startswith("// @limits"):
+                lim.update(parse_obl_line(ln.replace("@limits", "@obl")))
+    jobs = jobs or int(os.environ.get("VERIF_JOBS") or lim.get("jobs") or ("12" if tier == "quick" else "8"))
     timeout_s = timeout_s or int(os.environ.get("VERIF_HARNESS_TIMEOUT", "300" if tier == "quick" else "1500"))
-    mem_gb = mem_gb or float(os.environ.get("VERIF_MEM_GB", "16" if tier == "quick" else "28"))
+    mem_gb = mem_gb or float(os.environ.get("VERIF_MEM_GB") or lim.get("mem_gb") or ("16" if tier == "quick" else "28"))
     export = os.path.join(scratch.dir, "kani.json")
     logf = os.path.join(scratch.dir, "kani.log")
     fqs = [o["fq"] for o in obls]
